@@ -393,6 +393,65 @@ def c13e_applied(b1: bool, b2: bool, bd: bool, st: bool) -> bool:
     return fin(ok & (fields[0] == want_a) & (fields[1] == want_b) & applied)
 
 
+# applied-so-far bookkeeping for field names across the kinds of field mappings: an item gated by the field name
+# condition processing_item_applied applies to exactly the fields the earlier mapping produced
+MAPKINDS = [
+    ("1:1", {"type": "field_name_mapping", "mapping": {"fA": "mA"}}, {"fA": ["mA"]}),
+    ("1:n", {"type": "field_name_mapping", "mapping": {"fA": ["m1", "m2"]}}, {"fA": ["m1", "m2"]}),
+    ("prefix", {"type": "field_name_prefix_mapping", "mapping": {"fA": "pA"}}, {"fA": ["pA"], "fAx": ["pAx"]}),
+    ("prefix 1:n", {"type": "field_name_prefix_mapping", "mapping": {"fA": ["p1", "p2"]}}, {"fA": ["p1", "p2"], "fAx": ["p1x", "p2x"]}),
+    ("suffix", {"type": "field_name_suffix", "suffix": "_m", "field_name_conditions": [{"type": "include_fields", "fields": ["fA"]}]}, {"fA": ["fA_m"]}),
+]
+MAPSHAPES = [{"fA": "v"}, {"fA": "v", "fB": "w"}, {"fB": "w"}, {"fAx": "v", "fA": ["v", "u"]}, [{"fA": "v"}, {"fB": "w"}], {"fA|contains|all": ["v", "u"], "fB": "w"}]
+
+
+def fields_in(detection):
+    out = []
+    for it in detection.detection_items:
+        if hasattr(it, "detection_items"):
+            out.extend(fields_in(it))
+        else:
+            out.append(it.field)
+            out.extend(v.field for v in it.value if isinstance(v, SigmaFieldReference))
+    return out
+
+
+def c13e_applied_mapping(kind: int, shape: int, negate: bool) -> bool:
+    """
+    pre: 0 <= kind < len(MAPKINDS)
+    pre: 0 <= shape < len(MAPSHAPES)
+    post: _
+    """
+    k, sh, ng = sel(kind, len(MAPKINDS)), sel(shape, len(MAPSHAPES)), selb(negate)
+    with concrete_section():
+        import copy
+
+        _, trans, table = MAPKINDS[k]
+        gate = {"id": "g", "type": "field_name_suffix", "suffix": "_s", "field_name_conditions": [{"type": "processing_item_applied", "processing_item_id": "m"}]}
+        if ng:
+            gate["field_name_cond_not"] = True
+        p = ProcessingPipeline.from_dict({"name": "p", "priority": 1, "transformations": [dict(copy.deepcopy(trans), id="m"), gate]})
+        rule = SigmaRule.from_dict({"title": "t", "logsource": {"category": "c"}, "detection": {"sel": copy.deepcopy(MAPSHAPES[sh]), "condition": "sel"}})
+        p.apply(rule)
+        got = sorted(fields_in(rule.detection.detections["sel"]))
+        src = []
+        for m in MAPSHAPES[sh] if isinstance(MAPSHAPES[sh], list) else [MAPSHAPES[sh]]:
+            for key, val in m.items():
+                f, *mods = key.split("|")
+                src.append(f)
+                if "fieldref" in mods:
+                    src.append(val)
+        want = []
+        for f in src:
+            mapped = table.get(f)
+            if mapped is not None:
+                want.extend(x + ("" if ng else "_s") for x in mapped)
+            else:
+                want.append(f + ("_s" if ng else ""))
+        ok = got == sorted(want)
+    return fin(ok)
+
+
 # second rule through the same pipeline must not see the first rule's bookkeeping
 def c13e_reset(b1: bool, c1: bool) -> bool:
     """
@@ -428,6 +487,7 @@ OBLIGATIONS = [
     Ob("c13d_values", {}, 300),
     Ob("c13d_rule_conds", {}, 600),
     Ob("c13e_applied", {}, 300),
+    Ob("c13e_applied_mapping", {}, 300),
     Ob("c13e_reset", {}, 120),
 ]
 
